@@ -1106,6 +1106,30 @@ package rueidis
 //@   assert [C01 a-batch-is-released-exactly-when-its-last-reply-has-been-stored] at FinishResult#2: ff == len(multi) && (resps == nil || resps[ff - 1] == resp)
 
 // ---------------------------------------------------------------------------------------------
+// C11 — batched cache reads, placement sites only: every site that records or fills a position uses the command's own
+// position, requests are built for the missed positions in the order they are reported, a reply fills only a slot that is still
+// unanswered, and the multiplexer splits and re-joins a batch by input position. The counting argument that ties the k-th
+// request to the k-th unanswered slot is NOT proved (see MANIFEST).
+//@ func lru.Flights #c11
+//@   option opaque-pkgs=github.com/redis/rueidis/internal/cmds
+//@   modifies *
+//@   assert [C11 a-missed-command-is-reported-under-its-own-position] at append#2: len(arg1) == 1 && arg1[0] == i && 0 <= i && i < len(multi)
+//@   assert [C11 a-hit-of-the-first-pass-fills-its-own-position] at NewResult#1: 0 <= i && i < len(multi)
+//@   assert [C11 the-second-pass-looks-up-the-command-of-the-reported-position] at CacheKey#2: arg0 == multi[i].Cmd
+//@ func pipe.DoMultiCache #c11
+//@   option opaque-pkgs=github.com/redis/rueidis/internal/cmds
+//@   modifies *
+//@   assert [C11 an-exec-reply-fills-only-a-slot-that-is-still-unanswered] at ToArray: 0 <= j && j < len(results.s) && results.s[j].val.typ == 0 && results.s[j].err == nil
+//@ func mux.DoMultiCache #c11
+//@   option opaque-pkgs=github.com/redis/rueidis/internal/cmds
+//@   modifies *
+//@   assert [C11 the-multiplexer-queues-a-command-with-its-own-input-position] at append#1: len(arg1) == 1 && arg1[0] == cmd
+//@   assert [C11 the-multiplexer-queues-a-command-with-its-own-input-position] at append#2: len(arg1) == 1 && arg1[0] == i
+//@ func mux.DoMultiCache$1 #c11
+//@   modifies *
+//@   assert [C11 the-sub-batch-sent-is-the-one-whose-positions-are-used] at doMultiCache: arg2 == slot && arg3 == batches.m[slot].commands
+
+// ---------------------------------------------------------------------------------------------
 // C07 — cached replies expire at the earlier of the client TTL and the server PTTL (message.go, lru.go).
 // The expiry of a cached message is the 56-bit little-endian number kept in RedisMessage.ttl (0 = none).
 //@ func RedisMessage.setExpireAt
